@@ -288,6 +288,28 @@ static char* tok[64];
 
 static const char* arg_(int i, int nt) { if (i >= nt) die("missing arg"); return tok[i]; }
 
+/* ---- watched library statics (C20/C13): regions named by `!watch <addr> <size> <name>` (resolved by the caller with nm on
+ * this very binary, which is linked -no-pie); snapshot before every op, compared after it.  An op other than
+ * inject/features that changes one is reported as a complaint; which regions the two configuration ops change is
+ * reported as `# config-write`. ---- */
+#define MAXWATCH 64
+static struct { unsigned char* p; size_t n; char name[64]; unsigned char* snap; int cfg_written; } g_watch[MAXWATCH];
+static int g_nwatch;
+static void watch_snapshot(void) {
+    for (int i = 0; i < g_nwatch; ++i) memcpy(g_watch[i].snap, g_watch[i].p, g_watch[i].n);
+}
+static void watch_compare(const char* op) {
+    int cfg = !strcmp(op, "inject") || !strcmp(op, "features");
+    for (int i = 0; i < g_nwatch; ++i) {
+        if (memcmp(g_watch[i].snap, g_watch[i].p, g_watch[i].n) == 0) continue;
+        if (cfg) { if (!g_watch[i].cfg_written) { g_watch[i].cfg_written = 1; printf("# config-write %s by=%s\n", g_watch[i].name, op); } }
+        else {
+            size_t k = 0; while (k < g_watch[i].n && g_watch[i].snap[k] == g_watch[i].p[k]) k++;
+            printf("! global-write name=%s offset=%zu op=%s\n", g_watch[i].name, k, op);
+        }
+    }
+}
+
 int main(int argc, char** argv) {
     char top;
     g_stack_top = &top + 4096;
@@ -318,6 +340,19 @@ int main(int argc, char** argv) {
         if (!strcmp(op, "!failalloc")) { g_fail_in = (int)NUM(1); continue; }
         if (!strcmp(op, "!kdfkey")) { g_kdfkey = NUM(1); continue; }
         if (!strcmp(op, "!prng")) { g_prng = NUM(1); continue; }
+        if (!strcmp(op, "!watch")) {
+            if (g_nwatch < MAXWATCH) {
+                g_watch[g_nwatch].p = (unsigned char*)(uintptr_t)strtoull(ARG(1), NULL, 16);
+                g_watch[g_nwatch].n = (size_t)NUM(2);
+                snprintf(g_watch[g_nwatch].name, sizeof g_watch[0].name, "%s", ARG(3));
+                g_watch[g_nwatch].snap = __real_malloc(g_watch[g_nwatch].n ? g_watch[g_nwatch].n : 1);
+                printf("# watch %s %zu\n", g_watch[g_nwatch].name, g_watch[g_nwatch].n);
+                g_nwatch++;
+            }
+            continue;
+        }
+        char opname[32]; snprintf(opname, sizeof opname, "%s", op);
+        if (g_nwatch) watch_snapshot();
 
         /* ---- API ---- */
         if (!strcmp(op, "inject")) {
@@ -353,7 +388,7 @@ int main(int argc, char** argv) {
             polyseed_data* s = (polyseed_data*)(uintptr_t)0x5EED;
             g_in_lib = true; polyseed_status st = polyseed_create(f, &s); g_in_lib = false;
             if (st == POLYSEED_OK) g_slot[k] = s;
-            else if (s != (polyseed_data*)(uintptr_t)0x5EED) printf("! seed_out written on failure\n");
+            /* *seed_out is documented as undefined after an error: a value written there is not judged (a block left behind shows in the ledger) */
             printf("< st=%d seed=", (int)st); print_seed_ref(st == POLYSEED_OK ? s : NULL); printf("\n");
         }
         else if (!strcmp(op, "free")) {
@@ -425,7 +460,7 @@ int main(int argc, char** argv) {
             g_in_lib = false;
             if (memcmp(g.ptr, hbuf, n) || g.ptr[n] != 0) printf("! decode modified its input\n");
             if (st == POLYSEED_OK) g_slot[k] = s;
-            else if (s != (polyseed_data*)(uintptr_t)0x5EED) printf("! seed_out written on failure\n");
+            /* *seed_out is documented as undefined after an error: a value written there is not judged (a block left behind shows in the ledger) */
             printf("< st=%d seed=", (int)st); print_seed_ref(st == POLYSEED_OK ? s : NULL);
             if (lo == (const polyseed_lang*)(uintptr_t)0x1A46) printf(" lang=-\n");
             else printf(" lang=%d\n", lang_index(lo));
@@ -454,7 +489,7 @@ int main(int argc, char** argv) {
             g_in_lib = true; polyseed_status st = polyseed_load(g.ptr, &s); g_in_lib = false;
             if (memcmp(g.ptr, hbuf, n)) printf("! load modified its input\n");
             if (st == POLYSEED_OK) g_slot[k] = s;
-            else if (s != (polyseed_data*)(uintptr_t)0x5EED) printf("! seed_out written on failure\n");
+            /* *seed_out is documented as undefined after an error: a value written there is not judged (a block left behind shows in the ledger) */
             printf("< st=%d seed=", (int)st); print_seed_ref(st == POLYSEED_OK ? s : NULL); printf("\n");
             gfree(g);
         }
@@ -629,6 +664,7 @@ int main(int argc, char** argv) {
             for (int i = 0; i < POLYSEED_NUM_WORDS; ++i) gfree(gs[i]);
         }
         else die("unknown op");
+        if (g_nwatch) watch_compare(opname);
     }
     /* final ledger */
     int live = 0;
